@@ -76,6 +76,7 @@ static thread_local long g_stat_operand_owned = 0;
 static thread_local long g_stat_insert = 0;
 static thread_local long g_stat_in_handler = 0;
 static thread_local long g_stat_failed_copy = 0;
+static thread_local long g_stat_will_subscriptions = 0;
 [[noreturn]] inline void throw_harness_exc(long salt)
 {
   ++g_stat_throws[salt % 3];
@@ -663,6 +664,8 @@ struct SigAccess : public sigc::signal_base
   static auto insert_copy() { return static_cast<It (sigc::signal_base::*)(It, const sigc::slot_base&)>(&SigAccess::insert); }
   static auto insert_move() { return static_cast<It (sigc::signal_base::*)(It, sigc::slot_base&&)>(&SigAccess::insert); }
   static auto get_impl() { return static_cast<std::shared_ptr<sigc::internal::signal_impl> (sigc::signal_base::*)() const>(&SigAccess::impl); }
+  // (the data member itself: looking at the list of a signal without creating one)
+  static auto impl_member() { return static_cast<std::shared_ptr<sigc::internal::signal_impl> sigc::signal_base::*>(&SigAccess::impl_); }
 };
 
 using SlotI = sigc::slot<int(int)>;
@@ -2562,6 +2565,27 @@ void query_all_signals()
       (void)n;
       (void)e;
       (void)b;
+      // fourth part: the destructor subscribes to the signal and cancels the subscription at once (connect();
+      // disconnect()).  Whatever the library is in the middle of with that list — clear(), a sweep, the erasure of one
+      // slot — the cancelled slot must be gone when that operation returns (the trace and the later `size?` answers
+      // stay what the models say).  Not on a list that an emission is walking (its end marker is the only slot
+      // without a slot_rep a program of mode `owners` can have in a list) and not on a list that is dying.
+      using Sig = std::remove_reference_t<decltype(s)>;
+      using Slot = typename Sig::slot_type;
+      sigc::signal_base& sb = s;
+      auto& impl = sb.*SigAccess::impl_member();
+      if (!impl)
+        return 0;
+      for (const void* d : g_lists_dying)
+        if (d == impl.get())
+          return 0;
+      for (const auto& cell : impl->slots_)
+        if (!cell)
+          return 0;
+      Slot ns{ThrowOnCopy<typename slot_result<Slot>::type>()};
+      sigc::connection c = s.connect(ns);
+      c.disconnect();
+      ++g_stat_will_subscriptions;
       return 0;
     });
   }
@@ -2600,7 +2624,8 @@ int main(int argc, char** argv)
               << " operands_owned_by_a_functor=" << g_stat_operand_owned
               << " connects_through_protected_insert=" << g_stat_insert
               << " operations_inside_a_catch_handler=" << g_stat_in_handler
-              << " failed_copy_attempts=" << g_stat_failed_copy << "\n";
+              << " failed_copy_attempts=" << g_stat_failed_copy
+              << " subscriptions_made_and_cancelled_by_destructors=" << g_stat_will_subscriptions << "\n";
     return 0;
   }
   // C19: every program in its own thread, started behind a barrier, disjoint object graphs
